@@ -6,6 +6,7 @@ from __future__ import annotations
 import abc
 import itertools as it
 import operator as op
+import uuid
 from typing import Any, ClassVar, Dict, Iterable, Iterator, List, Optional, Set, Tuple, Type
 
 from pjrpc.common.typedefs import Json, JsonRpcParams, JsonRpcRequestId
@@ -349,7 +350,8 @@ class Request(AbstractRequest):
     ):
         self._method = method
         self._params = params
-        self._id = id
+        # UUID identifiers (see `pjrpc.common.generators.uuid`) are sent and matched in their string form
+        self._id = str(id) if isinstance(id, uuid.UUID) else id
 
     def __str__(self) -> str:
         if isinstance(self.params, list):
